@@ -184,19 +184,19 @@ func vpInv(e *vEnv, assert bool) bool {
 	m.req("C02,C03,C04,C11", "INV.04.preparations", vpPrepsOK(d))
 	// 5 proposal
 	req := vpProposal(d)
-	amev := d.isAntiMEVExtensionEnabled()
+	amev := e.amevOn()
 	if req != nil {
-		m.req("C01,C02,C04,C05,C12", "INV.05.ctx", d.Timestamp == req.ts && d.Nonce == req.nonce && vpSameTxs(d.TransactionHashes, req.txs))
-		m.req("C01,C02,C04,C05,C12", "INV.05.responses", vpResponsesName(d, req.Hash()))
+		m.req("C01,C02,C04,C05,C11,C12", "INV.05.ctx", d.Timestamp == req.ts && d.Nonce == req.nonce && vpSameTxs(d.TransactionHashes, req.txs))
+		m.req("C01,C02,C04,C05,C11,C12", "INV.05.responses", vpResponsesName(d, req.Hash()))
 	} else {
-		m.req("C01,C02,C04,C05,C12", "INV.05.noproposal", len(d.TransactionHashes) == 0 && len(d.Transactions) == 0 && len(d.MissingTransactions) == 0)
-		m.req("C01,C02,C04,C05,C12", "INV.05.noheader", d.header == nil && d.block == nil && d.preHeader == nil && d.preBlock == nil)
+		m.req("C01,C02,C04,C05,C11,C12", "INV.05.noproposal", len(d.TransactionHashes) == 0 && len(d.Transactions) == 0 && len(d.MissingTransactions) == 0)
+		m.req("C01,C02,C04,C05,C11,C12", "INV.05.noheader", d.header == nil && d.block == nil && d.preHeader == nil && d.preBlock == nil)
 		m.req("C01,C02,C05,C07", "INV.13.noblock", !d.blockProcessed)
 	}
 	// 6/7 transactions
-	m.req("C02,C04,C12", "INV.06.txkeys", vpTxKeysProposed(d))
+	m.req("C02,C04,C11,C12", "INV.06.txkeys", vpTxKeysProposed(d))
 	if req != nil && d.IsBackup() && !d.Context.WatchOnly() && d.PreparationPayloads[d.MyIndex] == nil && !d.blockProcessed {
-		m.req("C12", "INV.07.missing", vpMissingComplete(d))
+		m.req("C11,C12", "INV.07.missing", vpMissingComplete(d))
 	}
 	// 8 change views
 	m.req("C03,C04,C11", "INV.08.changeviews", vpChangeViewsOK(d))
